@@ -323,6 +323,10 @@ def dispatch : Sexp → Sexp
   | .list [.atom "path-dir", .bytes p] => .bytes (Path.dir p)
   | .list [.atom "path-base", .bytes p] => .bytes (Path.base p)
   | .list [.atom "resolve", .bytes n, .bytes s] => .bytes (Path.resolveSibling n s)
+  | .list (.atom "resolve-seq" :: .atom _ :: steps) =>
+    .list (steps.map fun st => match st with
+      | .list [.bytes n, .bytes sib, _] => .bytes (Path.resolveSibling n sib)
+      | _ => .atom "bad-op")
   | .list [.atom "parsename", .bytes n] => optBytes (Path.parseName n)
   | .list [.atom "normalize", .bytes n] => .bytes (Path.normalize n)
   | _ => .atom "bad-op"
